@@ -42,6 +42,10 @@ def make_cases(rng, quick):
                       "high": None if mode == "low" else loc + min(b, 12) * scale, "suffix": sfx, "seed": rng.randint(0, 10**6)})
     cases.append({"kind": "gaussian", "loc": 0.25, "scale": 0.5, "low": None, "high": None, "suffix": "_s", "seed": 1, "sky": True})
     cases.append({"kind": "gaussian", "loc": 60.0, "scale": 1.0, "low": None, "high": None, "suffix": "", "seed": 2, "sky": True})
+    # parameter names that END in the prior's suffix (two-component profiles in a multi-source / multi-band model): the site is still name + suffix
+    cases.append({"kind": "gaussian", "name": "r_eff_1", "loc": 3.0, "scale": 0.5, "low": None, "high": None, "suffix": "_1", "seed": 4})
+    cases.append({"kind": "uniform", "name": "f_ps", "loc": None, "scale": None, "low": 0.0, "high": 1.0, "suffix": "_ps", "seed": 5})
+    cases.append({"kind": "truncated", "name": "n_2", "loc": 2.0, "scale": 1.0, "low": 0.65, "high": 8.0, "suffix": "_2", "seed": 6})
     cases.append({"kind": "gaussian", "loc": -3.0, "scale": 0.046875, "low": None, "high": None, "suffix": "_b", "seed": 3, "sky": True})
     return cases
 
@@ -92,7 +96,7 @@ def run(ck):
             oracle_bad.append((c, r))
         if in_kf:
             continue        # no model goals for the recorded failing class (its log-densities are not finite)
-        want_key = ("sky_back" if c.get("sky") else "r_eff") + c["suffix"]
+        want_key = ("sky_back" if c.get("sky") else c.get("name", "r_eff")) + c["suffix"]
         if r["key"] != want_key or not r["reparam"]:
             book_bad.append((c, r["key"], r["reparam"]))
         try:
